@@ -48,6 +48,7 @@ def bar_candidates(n, extras=True):
         for k in range(n - 1):
             cs.append(cand(G[k] + L, "q", "A", 101 + 4 * k, 101 + 4 * k))        # exactly at the bound
             cs.append(cand(G[k] + L + 1, "q", "A", 103 + 4 * k, 105 + 4 * k))    # just beyond
+            cs.append(cand(G[k] + 10, "q", "A", 99 + 4 * k, 100 + 4 * k))        # a second quote inside the window
         cs.append(cand(G[0] + 1, "q", "B", 50, 52))
         cs.append(cand(G[1] + 10, "x"))
     return cs
@@ -60,9 +61,15 @@ def c08_models(tier, null="in_space"):
     n = 4 if tier == "quick" else 5
     cs = bar_candidates(n)
     modes = [(False, -1)] if tier == "quick" else [(False, -1), (True, -1)]
-    return [env_model("fifo", G[:n], cs, range(1, n + 1), 2 if tier == "quick" else 3, [0, L], [FOLD_ALL], modes,
-                      delays=(0, 1, 2), spaces=("box", "discrete"), maxcalls=n, reset_anywhere=False,
-                      invariants=C08_INV, trade=True, null=null)]
+    ms = [env_model("fifo", G[:n], cs, range(1, n + 1), 2 if tier == "quick" else 3, [0, L], [FOLD_ALL], modes,
+                    delays=(0, 1, 2), spaces=("box", "discrete"), maxcalls=n, reset_anywhere=False,
+                    invariants=C08_INV, trade=True, null=null)]
+    # repeated / abandoned episodes on one environment: the queue of delayed decisions starts afresh at every reset
+    ms.append(env_model("fifo-resets", G[:n], bar_candidates(n, extras=False) + [cand(G[0] + 10, "q", "A", 90, 91),
+                                                                                 cand(G[1] + L, "q", "A", 92, 93)],
+                        range(1, n + 1), 2, [L], [FOLD_ALL], [(False, -1)], delays=(1, 2), spaces=("box",),
+                        maxcalls=n + 2, reset_anywhere=True, invariants=C08_INV, trade=True, null=null))
+    return ms
 
 
 def c08(tier, seed):
